@@ -20,7 +20,7 @@ struct Tag { name: String, from: Option<String>, alias: bool, words: Vec<usize>,
 #[derive(Clone, Debug, Serialize, Deserialize)]
 struct Project { rule_files: Vec<Vec<Group>>, word_files: Vec<Vec<(String, Option<String>)>>, into: Vec<String>, tags: Vec<Tag>, expect_reject: Option<String>, #[serde(default)] order: Vec<usize> }
 
-const GNAMES: &[&str] = &["Grimms Law", "Verner", "a-mutation", "Final Devoicing", "Umlaut (i)", "Nasal loss 2", "Lenition", "Hap(lo)logy", "Cluster Simplification", "Syncope"];
+const GNAMES: &[&str] = &["Grimms Law", "Verner", "a-mutation", "Final Devoicing", "Umlaut (i)", "Nasal loss 2", "Lenition", "Hap(lo)logy", "Cluster Simplification", "Syncope", "Élision", "Ömlaut-Ü", "Ñ loss", "Æ-raising"];
 
 fn mixcase(t: &mut Tape, s: &str) -> String { s.chars().map(|c| if t.chance(1, 3) { if c.is_lowercase() { c.to_uppercase().next().unwrap() } else { c.to_lowercase().next().unwrap() } } else { c }).collect() }
 
